@@ -68,7 +68,8 @@ def run_deductive(pid, tier, jobs):
     _HARNESSES = mod.harnesses() if tier == "quick" or not hasattr(mod, "harnesses_thorough") else mod.harnesses_thorough()
     if tier == "thorough":
         for h in _HARNESSES:
-            h.timeout_ms = max(h.timeout_ms, 60000)
+            if h.retry_unknown:
+                h.timeout_ms = max(h.timeout_ms, 60000)
     t0 = time.time()
     if jobs > 1 and len(_HARNESSES) > 1:
         ctxmp = multiprocessing.get_context("fork")
@@ -90,7 +91,9 @@ def run_deductive(pid, tier, jobs):
             agg[oid] = {"status": "discharged" if c in r.covers else "failed", "instances": 1, "models": [],
                         "seconds": 0.0, "harness": h.name, "details": [], "reasons": [], "cover": True}
     vacuous = [r.name for _, r in normal if not r.undecided and not r.error and r.nonvacuous_paths == 0]
-    canary_ok = all(any(c.status == "failed" for c in r.checks) for _, r in canaries) if canaries else None
+    # a canary must not be discharged ("failed" with a model, or "unknown" where the solver cannot build a model of the
+    # quantified hypotheses) — what matters is that the pipeline does not prove a false clause
+    canary_ok = all(any(c.status in ("failed", "unknown") for c in r.checks) for _, r in canaries) if canaries else None
     loader = get_loader()
     functions = []
     for modname, qual in getattr(mod, "FUNCTIONS", []):
